@@ -360,11 +360,29 @@ def r24(ctx: Ctx) -> RuleReport:
         ctx.repo.func(mod, qn)          # anchors must exist
     allowed = {(a['first'], a['then']) for a in spec['allowed_out_of_order']}
     summaries: Dict[str, Optional[Tuple[int, int]]] = {}
-    funcs = [ctx.repo.func('penman.__main__', n) for n in ('_process_in', '_process_out', 'process')]
+    mm = ctx.repo.module('penman.__main__')
+    anchors = [ctx.repo.func('penman.__main__', n) for n in ('_process_in', '_process_out', 'process')]
+    # helpers of the three anchored functions come first (bottom-up), so that a call of a helper counts as the operations it performs
+    order: List[FuncInfo] = []
+    pending = [f for f in mm.all_funcs if f.qualname != 'main']
+    for _ in range(5):
+        for f in list(pending):
+            callees = [c for c in ctx.cg.callees(f) if c.module.name == mm.name and c.fq != f.fq]
+            if all(c in order or c not in pending for c in callees):
+                order.append(f)
+                pending.remove(f)
+    funcs = []
+    for fi in order:
+        probe = _pipeline_calls(ctx, fi, idx, {k: v for k, v in summaries.items()} | {f.fq: (0, 0) for f in funcs})
+        if probe or fi in anchors:
+            funcs.append(fi)
+    funcs = [f for f in order if f in funcs]
     for fi in funcs:
         pcs = _pipeline_calls(ctx, fi, idx, summaries)
         if not pcs:
-            raise AnalysisError(f'R24: {fi.fq} performs no pipeline operation any more')
+            if fi in anchors:
+                raise AnalysisError(f'R24: {fi.fq} performs no pipeline operation any more')
+            continue
         cfg = CFG(fi.node)
         pm = ctx.repo.parent_map(fi.node)
         nodes = [(owner_node(cfg, pm, c), c, lo, hi, lab) for c, lo, hi, lab in pcs]
@@ -395,25 +413,39 @@ def r24(ctx: Ctx) -> RuleReport:
     po = ctx.repo.func('penman.__main__', '_process_out')
     cfgo = CFG(po.node)
     pmo = ctx.repo.parent_map(po.node)
+    LAYOUT = ('penman.layout:configure', 'penman.layout:reconfigure')
+
+    def always_lays_out(f: FuncInfo, depth: int = 0) -> bool:
+        c2 = CFG(f.node)
+        pm2 = ctx.repo.parent_map(f.node)
+        nodes = set()
+        for c, ts in ctx.cg.calls_in(f):
+            if any(t.kind == 'func' and (t.func.fq in LAYOUT or (depth < 2 and t.func.module.name == f.module.name and t.func.fq != f.fq
+                                                                  and always_lays_out(t.func, depth + 1))) for t in ts):
+                nodes.add(owner_node(c2, pm2, c))
+        if not nodes:
+            return False
+        rn = ({nd.id for nd in c2.nodes if nd.kind == 'stmt' and isinstance(nd.ast, ast.Return)} or {c2.exit}) - nodes
+        return not rn or c2.path_avoiding([(c2.entry, None)], rn, lambda nd: nd.id in nodes) is None
     lay = {owner_node(cfgo, pmo, c) for c, ts in ctx.cg.calls_in(po)
-           if any(t.kind == 'func' and t.func.fq in ('penman.layout:configure', 'penman.layout:reconfigure') for t in ts)}
-    retn = {nd.id for nd in cfgo.nodes if nd.kind == 'stmt' and isinstance(nd.ast, ast.Return)}
-    skip = cfgo.path_avoiding([(cfgo.entry, None)], retn or {cfgo.exit}, lambda nd: nd.id in lay)
+           if any(t.kind == 'func' and (t.func.fq in LAYOUT or (t.func.module.name == po.module.name and always_lays_out(t.func))) for t in ts)}
+    retn = {nd.id for nd in cfgo.nodes if nd.kind == 'stmt' and isinstance(nd.ast, ast.Return)} - lay
+    skip = cfgo.path_avoiding([(cfgo.entry, None)], retn or {cfgo.exit}, lambda nd: nd.id in lay) if (retn or not lay) else None
     rep.add('penman.__main__:_process_out: every graph is laid out by configure or reconfigure before it is written', po.loc(),
             'violation' if skip else 'ok',
             'a path returns a tree without configuring the graph (' + ' -> '.join(repr(cfgo.nodes[x]) for x in skip[-4:])[:200] +
             '): the tool then writes something else than the library pipeline (configure normalises "(b / )" to "(b)", :ARG0-of-of ...)' if skip else '')
     # value threading: each graph/tree operation consumes the current value and its result replaces it
-    for fi in funcs[:2]:
+    for fi in [f for f in funcs if f.qualname != 'process']:
         for call, lo, hi, lab in _pipeline_calls(ctx, fi, idx, {}):
             pm = ctx.repo.parent_map(fi.node)
             par = pm.get(id(call))
             if lab.endswith(('rearrange', 'reset_variables')):
                 continue       # in-place operations
-            if (fi.qualname, lab) == ('_process_out', 'penman.layout:interpret'):
-                continue       # the allowed re-interpretation into an unused local
+            if lab == 'penman.layout:interpret' and fi.qualname != '_process_in':
+                continue       # the allowed re-interpretation (after reconfigure) into an unused local
             key = f'{fi.module.name}:{fi.qualname}: result of {lab.split(":")[1]} is carried forward'
-            good = isinstance(par, ast.Assign) and len(par.targets) == 1 and isinstance(par.targets[0], ast.Name)
+            good = (isinstance(par, ast.Assign) and len(par.targets) == 1 and isinstance(par.targets[0], ast.Name)) or isinstance(par, ast.Return)
             rep.add(key, fi.loc(call), 'ok' if good else 'undecided',
                     '' if good else 'the result of the operation is discarded')
     return rep
@@ -511,24 +543,57 @@ def r25(ctx: Ctx) -> RuleReport:
     for call, ts in ctx.cg.calls_in(main):
         if any(t.kind == 'func' and t.func.qualname == '_make_sort_key' for t in ts):
             a0, a2 = norm(call.args[0]), norm(call.args[2]) if len(call.args) > 2 else ''
-            want = {'args.rearrange': 'REARRANGE_KEYS', 'args.reconfigure': 'RECONFIGURE_KEYS'}
-            good = want.get(a0) == a2
+            want = {'rearrange': 'REARRANGE_KEYS', 'reconfigure': 'RECONFIGURE_KEYS'}
+            src0 = _arg_source(ctx, main, call.args[0])
+            good = want.get(src0) == a2
             par = ctx.repo.parent_map(main.node).get(id(call))
-            tgt = norm(par.targets[0]) if isinstance(par, ast.Assign) else None
-            good = good and tgt == a0
+            tgt = par.targets[0] if isinstance(par, ast.Assign) else None
+            # the result feeds the option entry of the same name (directly, through args.<x>, or through a local)
+            feeds = None
+            if tgt is not None:
+                if isinstance(tgt, ast.Attribute) and norm(tgt.value) == 'args':
+                    feeds = tgt.attr
+                elif isinstance(tgt, ast.Name):
+                    feeds = next((k for k, v in dicts['normalize_options'].items() if isinstance(v, ast.Name) and v.id == tgt.id), None)
+            crossed = src0 in want and (want.get(src0) != a2 or (feeds is not None and feeds != src0))
+            good = good and feeds == src0
+            a0 = f'args.{src0}'
             rep.add(f'penman.__main__:main: _make_sort_key({a0}, ..., {a2})', main.loc(call),
-                    'ok' if good else 'undecided', '' if good else f'sort keys of {a0} are resolved with table {a2} and stored in {tgt}')
+                    'ok' if good else ('violation' if crossed else 'undecided'),
+                    '' if good else f'sort keys of {a0} are resolved with table {a2} and feed the option {feeds!r}')
     return rep
 
 
-def _arg_source(ctx: Ctx, fi: FuncInfo, v: ast.AST) -> Optional[str]:
+def _arg_source(ctx: Ctx, fi: FuncInfo, v: ast.AST, depth: int = 0) -> Optional[str]:
     """'x' if the value is args.x, possibly through one local computed by a helper from args.x."""
     if isinstance(v, ast.Attribute) and isinstance(v.value, ast.Name) and v.value.id == 'args':
         return v.attr
     if isinstance(v, ast.Name):
         vals = ctx.cg.local_assigns(fi).get(v.id, [])
-        if len(vals) == 1 and isinstance(vals[0], ast.Call) and len(vals[0].args) == 1:
+        if len(vals) > 1 and depth < 4:
+            # x = args.y; if x: x = helper(x, ...)   -- every definition leads back to the same argument
+            srcs = set()
+            for val in vals:
+                if isinstance(val, ast.Call) and val.args and isinstance(val.args[0], ast.Name) and val.args[0].id == v.id:
+                    continue
+                srcs.add(_arg_source(ctx, fi, val, depth + 1) if isinstance(val, ast.AST) else None)
+            if len(srcs) == 1 and None not in srcs:
+                return srcs.pop()
+        if len(vals) == 1 and isinstance(vals[0], ast.Call) and len(vals[0].args) >= 1:
             return _arg_source(ctx, fi, vals[0].args[0])
+        if len(vals) == 1 and isinstance(vals[0], ast.IfExp):
+            # x = f(args.y, ...) if args.y else None
+            for arm in (vals[0].body, vals[0].orelse):
+                r = _arg_source(ctx, fi, arm) if not isinstance(arm, ast.Constant) else None
+                if r:
+                    return r
+        if len(vals) == 1 and isinstance(vals[0], (ast.Attribute, ast.Name)):
+            return _arg_source(ctx, fi, vals[0])
+        # key, kwargs = helper(args.x, ...)  (tuple unpacking)
+        for n in walk_local(fi.node):
+            if isinstance(n, ast.Assign) and isinstance(n.targets[0], ast.Tuple) and any(norm(e) == v.id for e in n.targets[0].elts) \
+                    and isinstance(n.value, ast.Call) and n.value.args:
+                return _arg_source(ctx, fi, n.value.args[0])
     return None
 
 
